@@ -207,3 +207,56 @@ func VF_C20_Faithful(layout int, nloc int, size int, num int) {
 		vfAssert(has, "the best fragment contains a match when one fits the fragment size")
 	}
 }
+
+// C20, formatters on overlapping locations: the location list handed to a
+// formatter is ordered by start but may still contain overlapping spans
+// (MergeOverlapping leaves a later overlapping pair apart when the first
+// location overlaps nothing). For every fragment window and every two ordered
+// locations — overlapping, nested, touching, partly outside the fragment —
+// both formatters do not panic, and removing the markers gives back exactly the
+// fragment's bytes.
+//
+// vf:harness property=C20 cases=L:1..3;ansi:0..1 cases.thorough=L:1..5;ansi:0..1 maxpaths=400000 unwind=400
+// vf:bounds text of L bytes (quick 1..3, thorough 5) of plain letters, any fragment window 0 <= fs <= fe <= L, two locations with 0 <= start <= end <= L ordered by start (overlaps and nesting included)
+// vf:assume text free of HTML-special characters (html.EscapeString is the identity there) and of the marker strings; locations inside the text (the analyzers never produce others)
+func VF_C20_FormatterOverlaps(L int, ansi int) {
+	text := make([]byte, L)
+	for i := range text {
+		text[i] = 'a' + byte(i)
+	}
+	fs, fe := vfInt("fs"), vfInt("fe")
+	vfAssume(0 <= fs && fs <= fe && fe <= L)
+	var tls TermLocations
+	prev := 0
+	for i := 0; i < 2; i++ {
+		st, en := vfInt("start"), vfInt("end")
+		vfAssume(prev <= st && st <= en && en <= L)
+		prev = st
+		tls = append(tls, &TermLocation{Term: "t", Pos: i + 1, Start: st, End: en})
+	}
+	f := &Fragment{Orig: text, Start: fs, End: fe}
+	var out string
+	var before, after string
+	if ansi == 1 {
+		out = NewANSIFragmentFormatterColor("<").Format(f, tls)
+		before, after = "<", "\x1b[0m"
+	} else {
+		out = NewHTMLFragmentFormatterTags("<", ">").Format(f, tls)
+		before, after = "<", ">"
+	}
+	// strip the markers
+	var plain []byte
+	for i := 0; i < len(out); {
+		if len(out)-i >= len(before) && out[i:i+len(before)] == before {
+			i += len(before)
+			continue
+		}
+		if len(out)-i >= len(after) && out[i:i+len(after)] == after {
+			i += len(after)
+			continue
+		}
+		plain = append(plain, out[i])
+		i++
+	}
+	vfAssert(string(plain) == string(text[fs:fe]), "without the markers the formatted fragment is exactly the fragment's text")
+}
